@@ -292,3 +292,38 @@ Qed.
 Theorem nts_pool_safe_from_start : forall n ops,
   NSafe n (ncurrent (nts_exec n ops (mkntspool [] 0))).
 Proof. intros; apply nts_pool_safe. split; cbn; [lia | constructor]. Qed.
+
+(* ---------- the functions compared with the real NtsPoolSpawner run the model of the theorem ---------- *)
+Lemma run_nts_ops_final : forall n ops st,
+  exists pre, run_nts_ops n ops st = pre ++ nts_final (nts_exec n ops st).
+Proof.
+  intros n ops; induction ops as [| o r IH]; intros st.
+  - exists []. reflexivity.
+  - destruct o as [outs | id]; cbn [run_nts_ops nts_exec].
+    + destruct (IH (fst (nts_try_spawn n st outs))) as [pre H]. rewrite H.
+      eexists (_ :: _ :: _ ++ _ :: pre). cbn. rewrite <- app_assoc. reflexivity.
+    + destruct (IH (nts_removed st id)) as [pre H]. rewrite H.
+      exists (b2z (nts_is_complete n (nts_removed st id)) :: pre). reflexivity.
+Qed.
+
+Lemma run_srv_ops_final : forall n ops st,
+  exists pre, run_srv_ops n ops st = pre ++ nts_final (nts_exec n (srv_to_nts n ops st) st).
+Proof.
+  intros n ops; induction ops as [| o r IH]; intros st.
+  - exists []. reflexivity.
+  - destruct o as [q | id]; cbn [run_srv_ops srv_to_nts nts_exec].
+    + set (outs := fst (srv_outcomes (n - length (ncurrent st)) q st)).
+      destruct (IH (fst (nts_try_spawn n st outs))) as [pre H]. rewrite H.
+      eexists (_ :: _ :: _ ++ _ :: _ :: pre). cbn. rewrite <- app_assoc. reflexivity.
+    + destruct (IH (nts_removed st id)) as [pre H]. rewrite H.
+      exists (b2z (nts_is_complete n (nts_removed st id)) :: pre). reflexivity.
+Qed.
+
+Theorem run_nts_final : forall n ops,
+  exists pre, run_nts (n, ops) = pre ++ nts_final (nts_exec n ops (mkntspool [] 0)).
+Proof. intros; apply run_nts_ops_final. Qed.
+
+Theorem run_srv_final : forall n ops,
+  exists pre, run_srv (n, ops)
+              = pre ++ nts_final (nts_exec n (srv_to_nts n ops (mkntspool [] 0)) (mkntspool [] 0)).
+Proof. intros; apply run_srv_ops_final. Qed.
